@@ -259,13 +259,15 @@ def impl_obs(case):
         except Exception as ex:  # noqa: BLE001
             obs["read_exc"] = f"{type(ex).__name__}: {str(ex)[:200]}"
             return obs
+        from geff.validate.data import validate_data
+
         try:
-            read_to_memory(geff_path, data_validation=ValidationConfig(graph=True))
+            validate_data(m, ValidationConfig(graph=True))
             obs["graph"] = "ok"
         except Exception as ex:  # noqa: BLE001
             obs["graph"] = f"{type(ex).__name__}: {str(ex)[:200]}"
         try:
-            read_to_memory(geff_path, data_validation=ValidationConfig(tracklet=True))
+            validate_data(m, ValidationConfig(tracklet=True))
             obs["geff_tracklet_validator"] = "ok"
         except Exception as ex:  # noqa: BLE001
             obs["geff_tracklet_validator"] = f"{type(ex).__name__}"
@@ -623,9 +625,9 @@ def run(ck: common.Check):
     cases = list(corpus())
     n_corpus = len(cases)
     cases += exhaustive_cases(ck.rng, thorough)
-    for _ in range(2400 if thorough else 260):
+    for _ in range(2400 if thorough else 200):
         cases.append(random_case(ck.rng, thorough))
-    for _ in range(400 if thorough else 60):
+    for _ in range(400 if thorough else 48):
         cases.append(malformed_case(ck.rng))
     ck.extra["corpus_cases"] = n_corpus
 
@@ -655,8 +657,12 @@ def run(ck: common.Check):
         if model is not None and "err" not in model[idx]:
             # the harness' notion of `consistent` must be the hypothesis of the theorems
             py_cons = is_consistent(ab["frames"], ab["table"]) or not any(ab["frames"]) and _rows_ok_without_nodes(ab)
-            if model[idx].get("consistent") != py_cons:
-                ck.corr_broken("C15:consistentB", c, py_cons, model[idx].get("consistent"))
+            lean_cons, lean_wf, lean_sorted = model[idx].get("consistent", [None, None, None])
+            if lean_cons != py_cons:
+                ck.corr_broken("C15:consistentB", c, py_cons, lean_cons)
+            # what the independent pass extracts must satisfy the theorems' input hypotheses WF and Sorted
+            if not (lean_wf and lean_sorted):
+                ck.corr_broken("C15:input-hypotheses(WF,Sorted)", c, ab, [lean_wf, lean_sorted])
         if model is not None and not (c.get("preexisting") and not c.get("overwrite")):
             mo = model[idx]
             if "err" in mo:
@@ -666,6 +672,11 @@ def run(ck: common.Check):
                 if d is not None:
                     ck.corr_broken("C15:fromCtc", c, {k: o.get(k) for k in ("exc", "msg", "node_ids", "edges", "axes")},
                                    {"diff": d, "model": mo})
+    n_setup_failed = sum(1 for o in obs_all if "pre_exc" in o)
+    ck.extra["setup_failed"] = n_setup_failed
+    if n_setup_failed * 20 > len(obs_all):
+        ck.broken.append({"what": "corr C15:generation", "detail": f"{n_setup_failed} scenario set-ups (pre-existing target) failed: "
+                          + str(next(o["pre_exc"] for o in obs_all if "pre_exc" in o))})
     # shape / chunks of the exported segmentation array against the model (segShape / segChunks)
     seg_idx = [i for i, o in enumerate(obs_all) if isinstance(o.get("seg"), dict) and "shape" in o["seg"]]
     seg_model = drv.ask([{"op": "seg", "n": obs_all[i]["seg"]["n_files"], "shape": obs_all[i]["seg"]["frame_shape"],
